@@ -1,8 +1,758 @@
-//! C27 — not built yet.
+//! C27 — query output does not depend on the evaluation route (DESIGN §4 C27).
+//! Differential, black-box: the same (documents, program, output options) are run with
+//! and without a semantically neutral switch that forces the materialised route, and
+//! stdout + exit status must be byte-identical.
+//!   jq: trailing comment `# input` (the runner abandons the lazy cursor path when the
+//!       filter text contains "input"); `-a` on ASCII-only documents.
+//!   yq: `--arg unused x` (any named variable disables M2/P9 streaming); `-P` where it
+//!       is neutral (JSON output always; YAML output only for documents that carry no
+//!       style to strip: block collections, plain scalars).
+use crate::cli;
 use crate::engine::*;
+use crate::gen::json::{self as gj, GenOpts, KeyPalette, StrPalette, J};
+use serde_json::{json, Value};
 
-pub const RULE: &str = "not built";
+pub const RULE: &str = "jq: batches of 1..16 G-json documents (duplicate keys, all escapes, non-ASCII, every number shape) x navigation programs drawn from the documents' own keys/indices (identity, fields, indices, negative indices, iteration, slices, optional forms, pipes, first(.[]), select(. != null), keys_unsorted; some misses and type errors) x {default, -c}: lazy route vs `PROG # input` (materialised), and vs -a on ASCII-only documents. yq: block-YAML documents from a tiny renderer (plain [a-h]+ keys, ints/bools/null/plain or double-quoted strings, nested block maps/sequences, 1..3 documents per stream) and G-json documents given as JSON text (auto-detected as YAML flow style, `-p json`, or a .json file name; unique keys, ASCII strings) x comma-free navigation programs x {YAML, -o json, -o json -I 0}: streaming route vs `--arg unused x`, and vs -P where -P has nothing to strip. Oracle: byte-identical stdout and equal exit status. Non-trivial: non-identity program on a document with nesting >= 2; distinct by hash(input text, program, options).";
+
+// ---------------------------------------------------------------- programs
+
+#[derive(Clone, Debug)]
+enum Step {
+    Key(String),
+    Idx(i64),
+}
+
+fn is_ident(k: &str) -> bool {
+    let mut cs = k.chars();
+    match cs.next() {
+        Some(c) if c.is_ascii_lowercase() || c == '_' => {}
+        _ => return false,
+    }
+    cs.all(|c| c.is_ascii_lowercase() || c.is_ascii_digit() || c == '_') && !gj::JQ_KEYWORDS.contains(&k)
+}
+
+fn path_text(steps: &[Step]) -> String {
+    if steps.is_empty() {
+        return ".".to_string();
+    }
+    let mut s = String::new();
+    for (i, st) in steps.iter().enumerate() {
+        match st {
+            Step::Key(k) if is_ident(k) => {
+                s.push('.');
+                s.push_str(k);
+            }
+            Step::Key(k) => {
+                if i == 0 {
+                    s.push('.');
+                }
+                s.push('[');
+                s.push_str(&gj::to_compact(&J::Str(k.clone())));
+                s.push(']');
+            }
+            Step::Idx(n) => {
+                if i == 0 {
+                    s.push('.');
+                }
+                s.push_str(&format!("[{}]", n));
+            }
+        }
+    }
+    s
+}
+
+/// Walk into the document along existing children; returns the steps and the node reached.
+fn pick_path<'a>(u: &mut Src, doc: &'a J, max_steps: usize) -> (Vec<Step>, &'a J) {
+    let mut steps = vec![];
+    let mut cur = doc;
+    let n = u.range(0, max_steps);
+    for _ in 0..n {
+        match cur {
+            J::Arr(a) if !a.is_empty() => {
+                let i = u.below(a.len());
+                // negative spelling of the same element now and then
+                if u.ratio(1, 5) {
+                    steps.push(Step::Idx(i as i64 - a.len() as i64));
+                } else {
+                    steps.push(Step::Idx(i as i64));
+                }
+                cur = &a[i];
+            }
+            J::Obj(f) if !f.is_empty() => {
+                let i = u.below(f.len());
+                steps.push(Step::Key(f[i].0.clone()));
+                // duplicate keys: navigation reaches the last value
+                cur = &f.iter().rev().find(|e| e.0 == f[i].0).unwrap().1;
+            }
+            _ => break,
+        }
+    }
+    (steps, cur)
+}
+
+/// A navigation program over `doc`. `commas_ok` is false for yq (multi-result comma
+/// programs are a documented presentation difference).
+fn gen_program(u: &mut Src, doc: &J) -> (String, &'static str) {
+    let (mut steps, mut target) = pick_path(u, doc, 4);
+    // one draw in six is a slice program: steer the path to an array
+    let want_slice = u.ratio(1, 6);
+    if want_slice {
+        for _ in 0..6 {
+            if matches!(target, J::Arr(_)) {
+                break;
+            }
+            let (s2, t2) = pick_path(u, doc, 4);
+            steps = s2;
+            target = t2;
+        }
+        if let J::Arr(a) = target {
+            let p = path_text(&steps);
+            let sub = |suffix: &str| if p == "." { format!(".{}", suffix) } else { format!("{}{}", p, suffix) };
+            let len = a.len() as i64;
+            let m = u.range_i64(-2, len + 1);
+            let n = u.range_i64(-2, len + 2);
+            return match u.below(3) {
+                0 => (sub(&format!("[{}:{}]", m, n)), "slice"),
+                1 => (sub(&format!("[{}:]", m)), "slice"),
+                _ => (sub(&format!("[:{}]", n)), "slice"),
+            };
+        }
+    }
+    // sometimes miss: a key/index the document does not have
+    if u.ratio(1, 10) {
+        steps.push(if u.bool() { Step::Key("zz".into()) } else { Step::Idx(u.range(0, 40) as i64) });
+        let p = path_text(&steps);
+        return (if u.bool() { format!("{}?", p) } else { p }, "miss");
+    }
+    let p = path_text(&steps);
+    let sub = |suffix: &str| -> String {
+        if p == "." {
+            format!(".{}", suffix)
+        } else {
+            format!("{}{}", p, suffix)
+        }
+    };
+    match u.below(16) {
+        0 => (".".to_string(), "identity"),
+        1 | 2 => (p.clone(), if steps.is_empty() { "identity" } else { "path" }),
+        3 | 6 => (sub("[]"), "iterate"),
+        4 => (sub("[-1]"), "negative-index"),
+        5 => {
+            // slices only where the model says array (object slicing is a documented
+            // materialising operation in yq) or on a miss
+            if matches!(target, J::Arr(_)) {
+                let len = if let J::Arr(a) = target { a.len() as i64 } else { 0 };
+                let m = u.range_i64(-2, len + 1);
+                let n = u.range_i64(-2, len + 2);
+                match u.below(3) {
+                    0 => (sub(&format!("[{}:{}]", m, n)), "slice"),
+                    1 => (sub(&format!("[{}:]", m)), "slice"),
+                    _ => (sub(&format!("[:{}]", n)), "slice"),
+                }
+            } else {
+                (sub("[]?"), "optional")
+            }
+        }
+        7 => {
+            if u.bool() {
+                (format!("{}?", if p == "." { ".zz".to_string() } else { format!("{}.zz", p) }), "optional")
+            } else {
+                (sub("[]?"), "optional")
+            }
+        }
+        8 => (format!("first({})", sub("[]")), "first"),
+        9 => (format!("{} | select(. != null)", p), "select"),
+        10 => (format!("{} | select(. != null)", sub("[]")), "select"),
+        11 => (format!("{} | keys_unsorted", p), "keys_unsorted"),
+        12 => {
+            // pipe chain: split the path in two
+            if steps.len() >= 2 {
+                let k = u.range(1, steps.len() - 1);
+                (format!("{} | {}", path_text(&steps[..k]), path_text(&steps[k..])), "pipe")
+            } else {
+                (format!("{} | .", p), "pipe")
+            }
+        }
+        13 => (format!("({})", p), "paren"),
+        14 => (format!("{} | {}", sub("[]"), ".[0]?"), "pipe"),
+        _ => (format!("last({})", sub("[]")), "first"),
+    }
+}
+
+fn lossy(b: &[u8]) -> String {
+    let s = String::from_utf8_lossy(b);
+    if s.len() > 3000 {
+        let mut cut = 3000;
+        while !s.is_char_boundary(cut) {
+            cut -= 1;
+        }
+        format!("{}…(+{} bytes)", &s[..cut], s.len() - cut)
+    } else {
+        s.to_string()
+    }
+}
+
+// ---------------------------------------------------------------- difference classes
+
+fn strip_doc_separators(b: &[u8]) -> Vec<u8> {
+    let mut out = vec![];
+    for line in b.split_inclusive(|&c| c == b'\n') {
+        let l = line.strip_suffix(b"\n").unwrap_or(line);
+        if l == b"---" {
+            continue;
+        }
+        out.extend_from_slice(line);
+    }
+    out
+}
+
+fn strip_dquotes(b: &[u8]) -> Vec<u8> {
+    b.iter().copied().filter(|&c| c != b'"' && c != b'\'').collect()
+}
+
+/// Equal when every maximal run of number characters is compared as a double.
+fn equal_modulo_number_spelling(a: &[u8], b: &[u8]) -> bool {
+    fn toks(x: &[u8]) -> Vec<(bool, &[u8])> {
+        let isn = |c: u8| c.is_ascii_digit() || matches!(c, b'+' | b'-' | b'.' | b'e' | b'E');
+        let mut v = vec![];
+        let mut i = 0;
+        while i < x.len() {
+            let n = isn(x[i]);
+            let mut j = i + 1;
+            while j < x.len() && isn(x[j]) == n {
+                j += 1;
+            }
+            v.push((n, &x[i..j]));
+            i = j;
+        }
+        v
+    }
+    let (ta, tb) = (toks(a), toks(b));
+    if ta.len() != tb.len() {
+        return false;
+    }
+    let mut any = false;
+    for (x, y) in ta.iter().zip(tb.iter()) {
+        if x.1 == y.1 {
+            continue;
+        }
+        if !(x.0 && y.0) {
+            return false;
+        }
+        let (fx, fy) = (std::str::from_utf8(x.1).ok().and_then(|s| s.parse::<f64>().ok()), std::str::from_utf8(y.1).ok().and_then(|s| s.parse::<f64>().ok()));
+        match (fx, fy) {
+            (Some(p), Some(q)) if p == q => any = true,
+            _ => return false,
+        }
+    }
+    any
+}
+
+/// Narrow, stable description of how two stdouts differ.
+fn diff_class(a: &[u8], b: &[u8]) -> &'static str {
+    // jq mode: a raw DEL byte on one side, its \u007f escape on the other
+    let del = |x: &[u8]| -> Vec<u8> {
+        let mut o = Vec::with_capacity(x.len());
+        for &c in x {
+            if c == 0x7f {
+                o.extend_from_slice(b"\\u007f");
+            } else {
+                o.push(c);
+            }
+        }
+        o
+    };
+    if a.contains(&0x7f) != b.contains(&0x7f) && del(a) == del(b) {
+        return "raw-DEL-vs-u007f-escape";
+    }
+    if strip_doc_separators(a) == strip_doc_separators(b) {
+        return "document-separator-placement";
+    }
+    if strip_dquotes(a) == strip_dquotes(b) {
+        return "scalar-quote-style";
+    }
+    if equal_modulo_number_spelling(a, b) {
+        return "number-spelling";
+    }
+    if equal_modulo_number_spelling(&strip_dquotes(a), &strip_dquotes(b)) {
+        return "scalar-quote-style+number-spelling";
+    }
+    let (sa, sb) = (strip_doc_separators(a), strip_doc_separators(b));
+    if strip_dquotes(&sa) == strip_dquotes(&sb) {
+        return "document-separator-placement+scalar-quote-style";
+    }
+    "other"
+}
+
+// ---------------------------------------------------------------- running
+
+struct Variant {
+    name: &'static str,
+    args: Vec<String>,
+}
+
+enum Outcome {
+    Pass,
+    Inconclusive,
+}
+
+/// Run base and forced variants over one input; compare stdout and exit status.
+fn compare(tool: &str, sigbase: &str, base: &Variant, forced: &[Variant], input: &[u8], file_name: &str, single_doc: bool) -> Result<Outcome, Fail> {
+    let dir = cli::tmp_file("c27d");
+    let _ = std::fs::create_dir_all(&dir);
+    let path = dir.join(file_name);
+    std::fs::write(&path, input).expect("write input");
+    let p = path.to_string_lossy().to_string();
+    let run = |v: &Variant| {
+        let mut a: Vec<&str> = vec![tool];
+        a.extend(v.args.iter().map(|s| s.as_str()));
+        a.push(&p);
+        cli::run(&a, None)
+    };
+    let b = run(base);
+    let mut result = Ok(Outcome::Pass);
+    if b.timed_out {
+        result = Ok(Outcome::Inconclusive);
+    } else if b.crashed() {
+        result = Err(Fail::new(
+            format!("{}/crash/{}", sigbase, base.name),
+            json!({"what": "crash on the base route", "args": base.args, "exit": b.code, "signal": b.signal, "stderr": lossy(&b.stderr), "input": lossy(input)}),
+        ));
+    } else {
+        for f in forced {
+            let r = run(f);
+            if r.timed_out {
+                result = Ok(Outcome::Inconclusive);
+                break;
+            }
+            let detail = |what: &str| {
+                json!({
+                    "what": what,
+                    "tool": tool,
+                    "base_args": base.args, "forced_args": f.args, "file_name": file_name,
+                    "input": lossy(input),
+                    "base": {"exit": b.code, "stdout": lossy(&b.stdout), "stderr": lossy(&b.stderr[..b.stderr.len().min(400)])},
+                    "forced": {"exit": r.code, "signal": r.signal, "stdout": lossy(&r.stdout), "stderr": lossy(&r.stderr[..r.stderr.len().min(400)])},
+                    "single_document": single_doc,
+                })
+            };
+            if r.crashed() {
+                result = Err(Fail::new(format!("{}/crash/{}", sigbase, f.name), detail("crash on the forced route")));
+                break;
+            }
+            if r.code != b.code {
+                result = Err(Fail::new(format!("{}/{}/exit-status-differs", sigbase, f.name), detail("exit status differs between the routes")));
+                break;
+            }
+            if r.stdout != b.stdout {
+                let cls = diff_class(&b.stdout, &r.stdout);
+                result = Err(Fail::new(format!("{}/{}/stdout-differs/{}", sigbase, f.name, cls), detail("stdout differs between the routes")));
+                break;
+            }
+        }
+    }
+    let _ = std::fs::remove_dir_all(&dir);
+    result
+}
+
+// ---------------------------------------------------------------- jq
+
+fn jq_variants(layout_c: bool, prog: &str, ascii_only: bool) -> (Variant, Vec<Variant>) {
+    let l: Vec<String> = if layout_c { vec!["-c".into()] } else { vec![] };
+    let mk = |pre: &[&str], p: String| -> Vec<String> {
+        let mut v: Vec<String> = pre.iter().map(|s| s.to_string()).collect();
+        v.extend(l.iter().cloned());
+        v.push(p);
+        v
+    };
+    let base = Variant { name: "lazy", args: mk(&[], prog.to_string()) };
+    let mut forced = vec![Variant { name: "comment-input", args: mk(&[], format!("{} # input", prog)) }];
+    if ascii_only {
+        forced.push(Variant { name: "ascii-output", args: mk(&["-a"], prog.to_string()) });
+    }
+    (base, forced)
+}
+
+fn all_ascii(j: &J) -> bool {
+    let mut stack = vec![j];
+    while let Some(x) = stack.pop() {
+        match x {
+            J::Str(s) if !s.is_ascii() => return false,
+            J::Arr(a) => stack.extend(a.iter()),
+            J::Obj(f) => {
+                for (k, v) in f {
+                    if !k.is_ascii() {
+                        return false;
+                    }
+                    stack.push(v);
+                }
+            }
+            _ => {}
+        }
+    }
+    true
+}
+
+fn jq_case(u: &mut Src, st: &mut Stats) -> Result<(), Fail> {
+    let n = match u.below(5) {
+        0 => 1,
+        1 => u.range(2, 4),
+        _ => u.range(4, 16),
+    };
+    let ascii_batch = u.ratio(2, 5);
+    let docs: Vec<J> = (0..n)
+        .map(|_| {
+            let o = GenOpts {
+                max_depth: u.range(1, 6),
+                max_nodes: u.range(2, 50),
+                strings: if ascii_batch { *u.pick(&[StrPalette::Ascii, StrPalette::AsciiPlain]) } else { StrPalette::Full },
+                keys: *u.pick(&[KeyPalette::Ident, KeyPalette::Ident, KeyPalette::AsStrings, KeyPalette::Hostile]),
+                ..GenOpts::default()
+            };
+            let o = if ascii_batch && o.keys == KeyPalette::Hostile { GenOpts { keys: KeyPalette::Ident, ..o } } else { o };
+            gj::gen_value(u, &o)
+        })
+        .collect();
+    let ascii_only = docs.iter().all(all_ascii);
+    let pick = u.below(n);
+    let (prog, pclass) = gen_program(u, &docs[pick]);
+    let texts: Vec<Vec<u8>> = docs
+        .iter()
+        .map(|j| {
+            let ro = gj::render_opts(u);
+            gj::render(j, u, ro).text
+        })
+        .collect();
+    let join = |idx: &[usize]| -> Vec<u8> {
+        let mut v = vec![];
+        for &i in idx {
+            v.extend_from_slice(&texts[i]);
+            v.push(b'\n');
+        }
+        v
+    };
+    st.class(&format!("program-{}", pclass));
+    st.class_if(ascii_only, "ascii-only-batch (-a compared)");
+    for (j, t) in docs.iter().zip(texts.iter()) {
+        st.evals(1);
+        st.class_if(j.has_dup_keys(), "doc-duplicate-keys");
+        if j.depth() >= 2 && pclass != "identity" {
+            st.class("nontrivial");
+            st.nontrivial(mix64(hash_bytes(t) ^ hash_str(&prog)));
+        }
+        st.size(t.len());
+    }
+    st.sample(pclass, || json!({"program": prog, "documents": n, "first": lossy(&texts[0][..texts[0].len().min(200)])}));
+    st.describe(|| json!({"tool": "jq", "program": prog, "documents": texts.iter().map(|t| lossy(t)).collect::<Vec<_>>()}));
+    let all: Vec<usize> = (0..n).collect();
+    for layout_c in [false, true] {
+        let (base, forced) = jq_variants(layout_c, &prog, ascii_only);
+        match compare("jq", "C27/jq", &base, &forced, &join(&all), "in.json", n == 1) {
+            Ok(Outcome::Pass) => {}
+            Ok(Outcome::Inconclusive) => {
+                st.discard();
+                return Ok(());
+            }
+            Err(bf) => {
+                if n == 1 {
+                    return Err(bf);
+                }
+                for i in 0..n {
+                    match compare("jq", "C27/jq", &base, &forced, &join(&[i]), "in.json", true) {
+                        Err(f) => return Err(f),
+                        Ok(Outcome::Inconclusive) => {
+                            st.discard();
+                            return Ok(());
+                        }
+                        Ok(Outcome::Pass) => {}
+                    }
+                }
+                let mut f = bf;
+                f.sig = f.sig.replacen("C27/jq", "C27/jq/stream-only", 1);
+                return Err(f);
+            }
+        }
+    }
+    Ok(())
+}
+
+// ---------------------------------------------------------------- yq: block YAML
+
+const RESERVED: &[&str] = &["true", "false", "null", "yes", "no", "on", "off", "nan", "inf", "y", "n"];
+
+fn gen_yaml_model(u: &mut Src, depth: usize, budget: &mut usize, plain_only: bool) -> J {
+    *budget = budget.saturating_sub(1);
+    if depth == 0 || *budget == 0 || u.ratio(2, 5) {
+        return match u.below(8) {
+            0 => J::Null,
+            1 => J::Bool(u.bool()),
+            2 | 3 => J::int(u.range_i64(-9, 999)),
+            4 | 5 if !plain_only => J::Str(gj::gen_string(u, StrPalette::AsciiPlain, 10)),
+            _ => {
+                let n = u.range(2, 6);
+                let s: String = (0..n).map(|_| (b'a' + u.below(26) as u8) as char).collect();
+                J::Str(if RESERVED.contains(&s.as_str()) { "word".into() } else { s })
+            }
+        };
+    }
+    let n = u.range(0, 4);
+    if u.bool() {
+        J::Arr((0..n).map(|_| gen_yaml_model(u, depth - 1, budget, plain_only)).collect())
+    } else {
+        let mut f: Vec<(String, J)> = vec![];
+        for _ in 0..n {
+            let l = u.range(1, 3);
+            let mut k: String = (0..l).map(|_| (b'a' + u.below(8) as u8) as char).collect();
+            while f.iter().any(|e| e.0 == k) {
+                k.push((b'a' + u.below(8) as u8) as char);
+            }
+            let v = gen_yaml_model(u, depth - 1, budget, plain_only);
+            f.push((k, v));
+        }
+        J::Obj(f)
+    }
+}
+
+fn plain_ok(s: &str) -> bool {
+    s.len() >= 2 && s.bytes().all(|b| b.is_ascii_lowercase()) && !RESERVED.contains(&s)
+}
+
+fn yaml_inline(v: &J, quoted: &mut bool) -> Option<String> {
+    Some(match v {
+        J::Null => "null".into(),
+        J::Bool(b) => b.to_string(),
+        J::Num(n) => n.text.clone(),
+        J::Str(s) => {
+            if plain_ok(s) {
+                s.clone()
+            } else {
+                *quoted = true;
+                format!("\"{}\"", s) // AsciiPlain: no quote, no backslash, printable
+            }
+        }
+        J::Arr(a) if a.is_empty() => "[]".into(),
+        J::Obj(f) if f.is_empty() => "{}".into(),
+        _ => return None,
+    })
+}
+
+/// Tiny block renderer: `key: scalar`, `key:` + indented block, `- scalar`, `- ` + block.
+fn yaml_block(v: &J, ind: usize, out: &mut Vec<String>, quoted: &mut bool) {
+    let sp = " ".repeat(ind);
+    match v {
+        J::Obj(f) => {
+            for (k, x) in f {
+                match yaml_inline(x, quoted) {
+                    Some(s) => out.push(format!("{}{}: {}", sp, k, s)),
+                    None => {
+                        out.push(format!("{}{}:", sp, k));
+                        yaml_block(x, ind + 2, out, quoted);
+                    }
+                }
+            }
+        }
+        J::Arr(a) => {
+            for x in a {
+                match yaml_inline(x, quoted) {
+                    Some(s) => out.push(format!("{}- {}", sp, s)),
+                    None => {
+                        let mut inner = vec![];
+                        yaml_block(x, ind + 2, &mut inner, quoted);
+                        let first = inner.remove(0);
+                        out.push(format!("{}- {}", sp, &first[ind + 2..]));
+                        out.extend(inner);
+                    }
+                }
+            }
+        }
+        _ => {}
+    }
+}
+
+fn yaml_doc(v: &J, quoted: &mut bool) -> String {
+    if let Some(s) = yaml_inline(v, quoted) {
+        return format!("{}\n", s);
+    }
+    let mut lines = vec![];
+    yaml_block(v, 0, &mut lines, quoted);
+    let mut s = lines.join("\n");
+    s.push('\n');
+    s
+}
+
+// JSON outputs first: the open YAML-output findings must not mask them
+const YQ_OUTS: &[(&str, &[&str])] = &[("json", &["-o", "json", "-I", "0"]), ("json", &["-o", "json"]), ("yaml", &[])];
+
+fn yq_variants(pre: &[&str], out_args: &[&str], prog: &str, with_p: bool) -> (Variant, Vec<Variant>) {
+    let mk = |extra: &[&str]| -> Vec<String> {
+        let mut v: Vec<String> = pre.iter().map(|s| s.to_string()).collect();
+        v.extend(out_args.iter().map(|s| s.to_string()));
+        v.extend(extra.iter().map(|s| s.to_string()));
+        v.push(prog.to_string());
+        v
+    };
+    let base = Variant { name: "stream", args: mk(&[]) };
+    let mut forced = vec![Variant { name: "dom-forced", args: mk(&["--arg", "unused", "x"]) }];
+    if with_p {
+        forced.push(Variant { name: "dom-forced", args: mk(&["-P"]) });
+    }
+    (base, forced)
+}
+
+fn yq_yaml_case(u: &mut Src, st: &mut Stats) -> Result<(), Fail> {
+    let plain_only = u.ratio(1, 3);
+    let ndocs = if u.ratio(1, 6) { u.range(2, 3) } else { 1 };
+    let mut quoted = false;
+    let docs: Vec<J> = (0..ndocs)
+        .map(|_| {
+            let mut b = u.range(3, 30);
+            let dep = u.range(1, 4);
+            let mut v = gen_yaml_model(u, dep, &mut b, plain_only);
+            if !v.is_container() || matches!(&v, J::Arr(a) if a.is_empty()) || matches!(&v, J::Obj(f) if f.is_empty()) {
+                v = J::Obj(vec![("a".into(), v)]);
+            }
+            v
+        })
+        .collect();
+    let texts: Vec<String> = docs.iter().map(|d| yaml_doc(d, &mut quoted)).collect();
+    let input = if ndocs == 1 { texts[0].clone() } else { texts.join("---\n") };
+    let pick = u.below(ndocs);
+    let (prog, pclass) = gen_program(u, &docs[pick]);
+    let max_depth = docs.iter().map(|d| d.depth()).max().unwrap_or(0);
+    st.class(&format!("program-{}", pclass));
+    st.class(if ndocs > 1 { "multi-document-stream" } else { "single-document" });
+    st.class_if(!quoted, "no-quoted-scalar (-P compared on YAML output)");
+    st.sample(pclass, || json!({"program": prog, "input": input}));
+    st.describe(|| json!({"tool": "yq", "program": prog, "input": input}));
+    let mode = if ndocs > 1 { "block-yaml-stream" } else { "block-yaml" };
+    for (oname, oargs) in YQ_OUTS {
+        st.evals(1);
+        if max_depth >= 2 && pclass != "identity" {
+            st.class("nontrivial");
+            st.nontrivial(mix64(hash_str(&input) ^ hash_str(&prog) ^ hash_str(&oargs.join(" "))));
+        }
+        let with_p = *oname == "json" || !quoted;
+        let (base, forced) = yq_variants(&[], oargs, &prog, with_p);
+        let sig = format!("C27/yq/{}/{}-output", mode, oname);
+        match compare("yq", &sig, &base, &forced, input.as_bytes(), "in.yaml", ndocs == 1) {
+            Ok(Outcome::Pass) => {}
+            Ok(Outcome::Inconclusive) => {
+                st.discard();
+                return Ok(());
+            }
+            Err(f) => return Err(f),
+        }
+    }
+    Ok(())
+}
+
+// ---------------------------------------------------------------- yq: JSON text
+
+fn yq_json_case(u: &mut Src, st: &mut Stats) -> Result<(), Fail> {
+    let numbers = *u.pick(&[0u8, 0, 1, 2]);
+    let palette = *u.pick(&[StrPalette::AsciiPlain, StrPalette::AsciiPlain, StrPalette::Ascii]);
+    let o = GenOpts {
+        max_depth: u.range(1, 5),
+        max_nodes: u.range(2, 40),
+        dup_keys: false,
+        strings: palette,
+        keys: KeyPalette::Ident,
+        numbers,
+        max_str_len: 12,
+    };
+    let mut doc = gj::gen_value(u, &o);
+    if !doc.is_container() {
+        doc = J::Arr(vec![doc]);
+    }
+    let ro = gj::RenderOpts { ws: *u.pick(&[gj::Ws::None, gj::Ws::Spaced, gj::Ws::Pretty]), esc: gj::Esc::Minimal, outer_ws: false };
+    let mut text = gj::render(&doc, u, ro).text;
+    text.push(b'\n');
+    let (mode, pre, fname): (&str, &[&str], &str) = match u.below(3) {
+        0 => ("json-as-yaml-flow", &[], "in.yaml"),
+        1 => ("p-json", &["-p", "json"], "in.txt"),
+        _ => ("dot-json-file", &[], "in.json"),
+    };
+    let (prog, pclass) = gen_program(u, &doc);
+    st.class(&format!("program-{}", pclass));
+    st.class(&format!("input-{}", mode));
+    st.class(&format!("numbers-level-{}", numbers));
+    st.sample(mode, || json!({"program": prog, "input": lossy(&text)}));
+    st.describe(|| json!({"tool": "yq", "mode": mode, "program": prog, "input": lossy(&text)}));
+    for (oname, oargs) in YQ_OUTS {
+        // strings with escapes / control characters: YAML output re-spells the source's
+        // double-quoted scalar on the materialised route only (same root cause as the
+        // registered scalar-quote-style finding); compared on JSON output only
+        if *oname == "yaml" && palette == StrPalette::Ascii {
+            st.class("yaml-output-skipped (escaped strings)");
+            continue;
+        }
+        st.evals(1);
+        if doc.depth() >= 2 && pclass != "identity" {
+            st.class("nontrivial");
+            st.nontrivial(mix64(hash_bytes(&text) ^ hash_str(&prog) ^ hash_str(&oargs.join(" ")) ^ hash_str(mode)));
+        }
+        // -P strips flow/quote style: neutral only for JSON output
+        let with_p = *oname == "json";
+        let (base, forced) = yq_variants(pre, oargs, &prog, with_p);
+        let sig = format!("C27/yq/{}/{}-output", mode, oname);
+        match compare("yq", &sig, &base, &forced, &text, fname, true) {
+            Ok(Outcome::Pass) => {}
+            Ok(Outcome::Inconclusive) => {
+                st.discard();
+                return Ok(());
+            }
+            Err(f) => return Err(f),
+        }
+    }
+    Ok(())
+}
+
+// ---------------------------------------------------------------- replays
+
+fn replay_input(v: &Value) -> Option<Fail> {
+    let inp = &v["input"];
+    let strs = |x: &Value| -> Vec<String> { x.as_array().map(|a| a.iter().filter_map(|s| s.as_str().map(|s| s.to_string())).collect()).unwrap_or_default() };
+    let tool = inp["tool"].as_str().unwrap_or("yq").to_string();
+    let base = Variant { name: "base", args: strs(&inp["base_args"]) };
+    let fname: &'static str = match inp["forced_name"].as_str().unwrap_or("arg") {
+        "dom-forced" => "dom-forced",
+        "comment-input" => "comment-input",
+        "ascii-output" => "ascii-output",
+        _ => "forced",
+    };
+    let forced = vec![Variant { name: fname, args: strs(&inp["forced_args"]) }];
+    let text = inp["text"].as_str().unwrap_or("").as_bytes().to_vec();
+    let sig = inp["sigbase"].as_str().unwrap_or("C27/replay").to_string();
+    match compare(&tool, &sig, &base, &forced, &text, inp["file_name"].as_str().unwrap_or("in.yaml"), true) {
+        Ok(_) => None,
+        Err(f) => Some(f),
+    }
+}
 
 pub fn run(cx: &mut Ctx) {
-    cx.infra("check not built");
+    if !cli::cli_available() {
+        cx.infra(format!("CLI binary not found at {}", cli::cli_path()));
+        return;
+    }
+    cx.assume("route forcing is observed, not hooked: jq_runner.rs leaves the lazy path when the filter text contains \"input\" or -a is given; yq_runner.rs leaves M2/P9 streaming when any --arg is present or -P is given");
+    cx.assume("kept out by construction (documented route differences): yq duplicate mapping keys, comma programs, comments/anchors, -S; -P on YAML output is only compared for documents without flow style or quoted scalars (stripping those is -P's purpose)");
+    for (name, v) in cx.replays.clone() {
+        if v["kind"] == "input" {
+            let r = replay_input(&v);
+            cx.replay_outcome(&name, r);
+        }
+    }
+    cx.check("jq-routes", RULE, Budget { quick: 700, thorough: 20_000, max_len: 8_000 }, jq_case);
+    for c in ["program-identity", "program-path", "program-iterate", "program-slice", "program-select", "program-keys_unsorted", "program-first", "ascii-only-batch (-a compared)", "doc-duplicate-keys", "nontrivial"] {
+        cx.require_class("jq-routes", c, 5);
+    }
+    cx.check("yq-block-yaml", RULE, Budget { quick: 500, thorough: 15_000, max_len: 2_000 }, yq_yaml_case);
+    for c in ["program-path", "program-iterate", "program-select", "multi-document-stream", "no-quoted-scalar (-P compared on YAML output)", "nontrivial"] {
+        cx.require_class("yq-block-yaml", c, 5);
+    }
+    cx.check("yq-json-text", RULE, Budget { quick: 500, thorough: 15_000, max_len: 3_000 }, yq_json_case);
+    for c in ["input-json-as-yaml-flow", "input-p-json", "input-dot-json-file", "program-path", "nontrivial"] {
+        cx.require_class("yq-json-text", c, 5);
+    }
+    cli::cleanup();
 }
